@@ -44,6 +44,8 @@ def events(labels):
     for obj in ("c", "d", "a"):          # write through link c -> a, through link d -> c -> a, and on the target itself
         for name in NAMES:
             ev.append(("write", obj, name))
+    ev.append(("write_equal", "d", "foo"))   # assign an equal but distinct object over the current value (through link-to-link)
+    ev.append(("write_equal", "a", "foo"))
     ev.append(("write", "b", "foo"))     # an unrelated node
     ev.append(("write", "e", "bar"))     # a link into another tree (e -> b)
     for op in (("setp", "c", "b"), ("setp", "a", "c"), ("setp", "d", "a"), ("setp", "c", None), ("delc", "c"),
@@ -123,7 +125,18 @@ def run_sequence(t, witness, seq):
     for k, ev in enumerate(seq):
         step = k + 1
         value = ["v%d" % step, step]
-        if ev[0] == "write":
+        if ev[0] == "write_equal":
+            cur = model[final_target(ev[1], direct)].get(ev[2])
+            if cur is None:
+                continue  # nothing to be equal to yet
+            value = list(cur)   # equal, but another object: the assignment must still be stored (identity is observable)
+            setattr(nodes[ev[1]], ev[2], value)
+            model[final_target(ev[1], direct)][ev[2]] = value
+            t.c["equal_value_writes"] += 1
+            st2 = check("after writing an equal but distinct object to %s.%s" % (ev[1], ev[2]))
+            if st2 is False:
+                return
+        elif ev[0] == "write":
             setattr(nodes[ev[1]], ev[2], value)
             model[final_target(ev[1], direct)][ev[2]] = value
             t.c["writes"] += 1
@@ -351,6 +364,6 @@ def run(tier):
     }
     return {"tally": t, "coverage": cov, "known": known,
             "guards": ("writes_through_links", "structural_events", "constructor_kwargs", "sequences", "refusals", "pre_hook_vetoes",
-                       "retargets", "refused_writes", "constructor_positions"),
+                       "retargets", "refused_writes", "constructor_positions", "equal_value_writes"),
             "assumptions": ["attribute names {foo, bar, name, baz, nope}; bounded universes", "C03 known findings apply to link nodes "
                             "identically (same setter code) and are matched exactly as in C03"]}
